@@ -26,7 +26,7 @@ type Set struct {
 }
 
 // ContentKinds lists the content classes.
-var ContentKinds = []string{"random", "random", "random", "zeros", "period", "dupslices", "mixed"}
+var ContentKinds = []string{"random", "random", "random", "zeros", "period", "dupslices", "mixed", "crctwins"}
 
 // GenData produces n bytes of the given content class.
 func GenData(rng *rand.Rand, kind string, n, slice int) []byte {
@@ -50,6 +50,22 @@ func GenData(rng *rand.Rand, kind string, n, slice int) []byte {
 		}
 		for off := 0; off < n; off += slice {
 			copy(b[off:], pool[rng.Intn(k)])
+		}
+	case "crctwins":
+		// random content in which some slices are CRC-32 twins of their
+		// predecessor: same CRC-32, different bytes (needs slices >= 8 bytes)
+		rng.Read(b)
+		if slice >= 8 {
+			for off := slice; off+slice <= n; off += slice {
+				if rng.Intn(2) == 0 {
+					copy(b[off:off+slice], b[off-slice:off])
+					pat := CRCPreservingPattern(rng.Intn(8))
+					at := off + rng.Intn(slice-5)
+					for k, x := range pat {
+						b[at+k] ^= x
+					}
+				}
+			}
 		}
 	case "mixed":
 		rng.Read(b)
